@@ -3,10 +3,12 @@
 
   Model: JRV.Model.Headers.  Theorems hold for every conversion function `strOf` (Python's `str`),
   every `_extra_headers` list, every stack of dictionaries of any depth (the property lists 0–4),
-  every header name and every block tree.
+  every header name and every block tree, whatever the class of the exception that leaves a block
+  (`Exception` subclass, direct `BaseException` subclass, `GeneratorExit`, `SystemExit`).
+
+  The companion theorems of the extracted facts (`C18_gen_*`) are in JRV/Properties/C18Gen.lean.
 -/
 import JRV.Model.Headers
-import JRV.Generated
 
 set_option linter.unusedSimpArgs false
 
@@ -233,7 +235,7 @@ mutual
   private theorem runBlock_restores : ∀ (b : Block) (stack : List HDict),
       (runBlock stack b).stack = stack ∧ (runBlock stack b).assertFailed = false
     | .call, stack => by simp [runBlock]
-    | .raise, stack => by simp [runBlock]
+    | .raise k, stack => by simp [runBlock]
     | .nest h body, stack => by
       have ih := runBody_restores body (stack ++ [h])
       simp only [runBlock, ih.1, popHeaders_push]
@@ -252,30 +254,93 @@ mutual
         exact h2
 end
 
-/-- On leaving an `_additional_headers` block — normally or through an exception raised at any
-    depth — the header stack is exactly the one in force before entering it, and `pop_headers`'
-    assertion never fails; for every block tree. -/
+/-- On leaving an `_additional_headers` block — normally or through an exception of any kind raised
+    at any depth — the header stack is exactly the one in force before entering it, and
+    `pop_headers`' assertion never fails; for every block tree. -/
 theorem C18_restore (b : Block) (stack : List HDict) :
     (runBlock stack b).stack = stack ∧ (runBlock stack b).assertFailed = false :=
   runBlock_restores b stack
 
-/-- … and inside the block the requests see the stack extended by the block's dictionary. -/
-theorem C18_block_scope (h : HDict) (stack : List HDict) :
+/-- The same for a whole statement list (the code of a program using one proxy). -/
+theorem C18_restore_body (bs : List Block) (stack : List HDict) :
+    (runBody stack bs).stack = stack ∧ (runBody stack bs).assertFailed = false :=
+  runBody_restores bs stack
+
+mutual
+  /-- The first `raise` reached in program order (specification side: read off the block tree). -/
+  def firstRaise : Block → Option ExcKind
+    | .call => none
+    | .raise k => some k
+    | .nest _ body => firstRaiseL body
+  def firstRaiseL : List Block → Option ExcKind
+    | [] => none
+    | b :: rest =>
+      match firstRaise b with
+      | some k => some k
+      | none => firstRaiseL rest
+end
+
+mutual
+  private theorem runBlock_exit : ∀ (b : Block) (stack : List HDict), (runBlock stack b).raised = firstRaise b
+    | .call, stack => by simp [runBlock, firstRaise]
+    | .raise k, stack => by simp [runBlock, firstRaise]
+    | .nest h body, stack => by
+      have ih := runBody_exit body (stack ++ [h])
+      have hr := runBody_restores body (stack ++ [h])
+      simp only [runBlock, hr.1, popHeaders_push, firstRaise]
+      exact ih
+  private theorem runBody_exit : ∀ (bs : List Block) (stack : List HDict), (runBody stack bs).raised = firstRaiseL bs
+    | [], stack => by simp [runBody, firstRaiseL]
+    | b :: rest, stack => by
+      have h1 := runBlock_exit b stack
+      have h2 := runBody_exit rest (runBlock stack b).stack
+      simp only [runBody, firstRaiseL]
+      cases hb : firstRaise b with
+      | some k => simp [h1, hb]
+      | none => simp [h1, hb, h2]
+end
+
+/-- The exception that comes out of a block is the first one raised inside it, of whatever kind: the
+    block neither swallows nor replaces it (and with `C18_restore` the stack is restored while it
+    propagates).  In particular a block without a `raise` ends normally. -/
+theorem C18_exit_kind (b : Block) (stack : List HDict) : (runBlock stack b).raised = firstRaise b :=
+  runBlock_exit b stack
+
+/-- … and inside the block the requests see the stack extended by the block's dictionary; a request
+    after a block left through an exception of kind `k` is not reached, and `k` propagates. -/
+theorem C18_block_scope (h : HDict) (stack : List HDict) (k : ExcKind) :
     (runBlock stack (.nest h [.call])).seen = [stack ++ [h]] ∧
-    (runBody stack [.nest h [.raise], .call]).raised = true ∧
-    (runBody stack [.nest h [.call], .call]).seen = [stack ++ [h], stack] := by
+    (runBody stack [.nest h [.raise k], .call]).raised = some k ∧
+    (runBody stack [.nest h [.raise k], .call]).seen = [] ∧
+    (runBody stack [.nest h [.call], .call]).seen = [stack ++ [h], stack] ∧
+    (runBody stack [.nest h [.call], .nest h [.call], .call]).seen = [stack ++ [h], stack ++ [h], stack] := by
   simp [runBlock, runBody, popHeaders_push]
 
-/-- Tie to the source. -/
-theorem C18_gen_readonly : Generated.readonlyHeaders = some readonly := by decide
-
-theorem C18_gen_mergeLowercases : Generated.headerMergeLowercasesKeys = some true := by decide
-
-theorem C18_gen_blockFinally : Generated.headersBlockPopInFinally = some true := by decide
+/- Non-vacuity of `C18_exit_kind` / `C18_restore`: a `SystemExit` raised two blocks deep comes out, with
+   the stack restored and the request before it seen with both dictionaries. -/
+example :
+    (runBlock [[("a", .str "0")]] (.nest [("X", .str "1")] [.nest [("Y", .str "2")] [.call, .raise .systemExit], .call])).raised
+        = some .systemExit ∧
+    (runBlock [[("a", .str "0")]] (.nest [("X", .str "1")] [.nest [("Y", .str "2")] [.call, .raise .systemExit], .call])).stack
+        = [[("a", .str "0")]] ∧
+    (runBlock [[("a", .str "0")]] (.nest [("X", .str "1")] [.nest [("Y", .str "2")] [.call, .raise .systemExit], .call])).seen
+        = [[[("a", .str "0")], [("X", .str "1")], [("Y", .str "2")]]] := by
+  refine ⟨by simp [C18_exit_kind, firstRaise, firstRaiseL], (C18_restore _ _).1, ?_⟩
+  have h1 := popHeaders_push [[("a", PyVal.str "0")], [("X", .str "1")]] [("Y", .str "2")]
+  have h2 := popHeaders_push [[("a", PyVal.str "0")]] [("X", .str "1")]
+  simp only [List.cons_append, List.nil_append] at h1 h2
+  simp [runBlock, runBody, h1, h2]
 
 /- Non-vacuity: the stack of the original defect. -/
 example : additional (fun v => match v with | .str s => s | _ => "?") []
     [[("x-test", .str "1")], [("X-Test", .str "2")], [("x-test", .str "3")]] = [("x-test", "3")] := by
-  decide +kernel
+  have e1 : "X-Test".toLower = "x-test" := by decide +kernel
+  have e2 : "x-test".toLower = "x-test" := by decide +kernel
+  simp [additional, merged, mergeInto, assocSet, readonly, e1, e2]
+
+/- Non-vacuity of the hypothesis of `C18_recency`: a custom name is not read-only; the read-only ones are excluded
+   there and covered by `C18_protected`. -/
+example : readonly.contains "x-test" = false ∧ readonly.contains "user-agent" = false ∧
+    readonly.contains "content-length" = true := by decide +kernel
 
 end JRV.Props
